@@ -168,6 +168,14 @@ func build(set []spec, hosts, paths []string) (*fox.Router, []served, error) {
 				continue
 			}
 			out = append(out, served{req: rq, host: h, path: p})
+			if len(out) == 1 {
+				// the first served request once more with a query string (the router never needs to parse it)
+				q := *rq
+				u := *rq.URL
+				u.RawQuery = "page=2&sort=asc"
+				q.URL = &u
+				out = append(out, served{req: &q, host: h, path: p})
+			}
 		}
 	}
 	return f, out, nil
